@@ -1074,14 +1074,29 @@ class MasterSim(object):
         this snapshot treat the bucket topology as constant while they run;
         a new master builds the new topology."""
         rack = self.racks[rack_idx % len(self.racks)]
+        if rack_idx % 3:
+            # aim: the rack that hosts most instances
+            load = {}
+            for server, parent in self.parent_of.items():
+                node = self.tree.nodes.get(z.path.placement(server))
+                if node is not None:
+                    load[parent] = load.get(parent, 0) + len(node.children)
+            cands = sorted((-cnt, name) for name, cnt in load.items()
+                           if cnt and name in self.racks)
+            if cands:
+                rack = cands[0][1]
         if not self.admin.exists(z.path.bucket(rack)):
             return
         pods = sorted(name for name in self.admin.get_children(z.BUCKETS)
                       if name.startswith('pod:'))
-        if not pods:
+        current = (zkutils.get_default(self.admin, z.path.bucket(rack)) or
+                   {}).get('parent')
+        others = [name for name in pods if name != current]
+        if not others:
             return
         self.tick()
-        masterapi.create_bucket(self.admin, rack, pods[pod_idx % len(pods)])
+        masterapi.create_bucket(self.admin, rack,
+                                others[pod_idx % len(others)])
         self.count('rack_redefined_under_pod')
 
     def op_rmbucket(self, rack_idx):
